@@ -16,11 +16,13 @@ import (
 // virtual clock). Every call is a scheduling point and is logged for the oracles.
 type FS struct {
 	FaultOps map[string]bool // kinds of call that may be failed by the explorer (nil = every kind)
-	nfd      int
-	x        *Exec
-	Nodes    map[string]*Inode // cleaned path -> node
-	Log      []FSCall
-	Open     map[*File]struct{}
+	// NoShortWrites: an injected write fault refuses the whole write (EIO), never stores half of it
+	NoShortWrites bool
+	nfd           int
+	x             *Exec
+	Nodes         map[string]*Inode // cleaned path -> node
+	Log           []FSCall
+	Open          map[*File]struct{}
 }
 
 // Inode is a file or directory.
@@ -206,7 +208,11 @@ func (fl *File) Write(b []byte) (int, error) {
 	}
 	n := len(b)
 	var err error
-	switch f.fault("write", 3) {
+	alts := 3
+	if f.NoShortWrites {
+		alts = 2
+	}
+	switch f.fault("write", alts) {
 	case 1:
 		f.log(FSCall{Op: "write", Path: fl.Path, Err: "EIO(injected)", Bytes: len(b), FD: fl.ID, Data: string(b)})
 		return 0, pathErr("write", fl.Path, syscall.EIO)
